@@ -564,3 +564,14 @@ Definition table_kbody (H w ks vs i : nat) : nat := table_step H w ks vs * i + 8
 Definition table_vhead (H w ks vs i : nat) : nat := table_step H w ks vs * i + 8 + H + round_up w ks.
 Definition table_vbody (H w ks vs i : nat) : nat := table_step H w ks vs * i + 8 + H + round_up w ks + H.
 Definition table_block (H w ks vs nslots : nat) : nat := table_step H w ks vs * nslots.
+
+(* Tree nodes, site by site.  The key size enters the layout at four places of Tree.c - the calloc and the
+   value's header_init in Tree_Alloc, the accessor Tree_Val, the node copy in Tree_Rem - and each of them uses
+   either m->ksize or that size rounded up to sizeof(var); which one is read off the source per site
+   (hdr_tree_*_kround).  The object is usable only if all of them mean the same offset. *)
+Definition ks_at (rounded : bool) (w ks : nat) : nat := if rounded then round_up w ks else ks.
+
+Definition tree_site_block (H w ks vs : nat) : nat := 3 * w + H + ks_at hdr_tree_alloc_block_kround w ks + H + vs.   (* calloc in Tree_Alloc *)
+Definition tree_site_vhead (H w ks : nat) : nat := 3 * w + H + ks_at hdr_tree_alloc_vhead_kround w ks.              (* where Tree_Alloc puts the value's header *)
+Definition tree_site_vbody (H w ks : nat) : nat := 3 * w + H + ks_at hdr_tree_val_kround w ks + H.                  (* where Tree_Val says the value is *)
+Definition tree_site_copy_end (H w ks vs : nat) : nat := 3 * w + H + ks_at hdr_tree_rem_copy_kround w ks + H + vs.  (* end of the node copy in Tree_Rem *)
